@@ -232,6 +232,9 @@ func (c *vCase) Bubble(f func()) {
 // violation (attributed by their first library frame), anything else is a
 // harness error.
 func (c *vCase) vLeftover() {
+	if c.leftover {
+		return // the case has looked at its leftovers itself
+	}
 	synctest.Wait()
 	gs := vGoroutinesInBubble()
 	// goroutines that merely sleep (announce retry jitter, mocknet timers) finish on their own
@@ -433,10 +436,13 @@ func vRun(t *testing.T, prop string, n func(tier string) int, fn func(c *vCase))
 			fmt.Fprintf(casesLog, "CASE %d\n", i)
 		}
 		t0 := time.Now()
+		stallDone := make(chan struct{})
+		go vStallWatch(i, stallDone)
 		func() {
 			defer c.recoverPanic()
 			fn(c)
 		}()
+		close(stallDone)
 		c.res.WallMs = time.Since(t0).Milliseconds()
 		c.finish()
 		ran++
@@ -583,4 +589,88 @@ func vDumpAll(path string) {
 	buf := make([]byte, 8<<20)
 	n := runtime.Stack(buf, true)
 	os.WriteFile(path, buf[:n], 0o644)
+}
+
+
+// vStallWatch (real time, outside any bubble) looks for the one state a bubble
+// cannot get out of: a goroutine of the bubble waiting for a sync.Mutex /
+// RWMutex (not a durable block, so virtual time stands still) while every
+// other goroutine of the bubble is blocked too. The verdict is the state, seen
+// in two dumps three seconds apart with the same goroutines, not the elapsed
+// time; the process ends (the runner restarts the shard behind this case).
+func vStallWatch(idx int, done chan struct{}) {
+	grace := 20 * time.Second
+	if raceEnabled {
+		grace = 60 * time.Second
+	}
+	select {
+	case <-done:
+		return
+	case <-time.After(grace):
+	}
+	prev := ""
+	for {
+		ids, stacks := vLockWaiters()
+		if ids != "" && ids == prev {
+			fmt.Printf("fatal error: VERIF-STALL case %d: goroutines wait for a lock that is never released, everything else in the bubble is blocked\n\n%s\n", idx, strings.Join(stacks, "\n\n"))
+			os.Stdout.Sync()
+			os.Exit(3)
+		}
+		prev = ids
+		select {
+		case <-done:
+			return
+		case <-time.After(3 * time.Second):
+		}
+	}
+}
+
+// vLockWaiters returns the ids and stacks of bubble goroutines waiting for a
+// mutex, provided no goroutine of a bubble is running, runnable or in a system
+// call (lock waiters first, then the durably blocked library goroutines).
+func vLockWaiters() (string, []string) {
+	buf := make([]byte, 4<<20)
+	for {
+		n := runtime.Stack(buf, true)
+		if n < len(buf) {
+			buf = buf[:n]
+			break
+		}
+		buf = make([]byte, 2*len(buf))
+	}
+	var ids, waiters, others []string
+	for _, g := range strings.Split(string(buf), "\n\n") {
+		nl := strings.IndexByte(g, '\n')
+		if nl < 0 {
+			continue
+		}
+		hdr := g[:nl]
+		if !strings.Contains(hdr, "synctest bubble") {
+			continue
+		}
+		switch {
+		case strings.Contains(hdr, "[sync.Mutex.Lock") || strings.Contains(hdr, "[sync.RWMutex.Lock") || strings.Contains(hdr, "[sync.RWMutex.RLock"):
+			ids = append(ids, strings.Fields(hdr)[1])
+			waiters = append(waiters, g)
+		case strings.Contains(hdr, "(durable)"):
+			if len(vLibGoroutines([]string{g})) > 0 {
+				// likely lock holders first: goroutines of the harness that sit inside a library call
+				if strings.Contains(g, "_test.go") {
+					others = append([]string{g}, others...)
+				} else {
+					others = append(others, g)
+				}
+			}
+		default:
+			return "", nil // something in the bubble can still run
+		}
+	}
+	if len(waiters) == 0 {
+		return "", nil
+	}
+	sort.Strings(ids)
+	if len(others) > 12 {
+		others = others[:12]
+	}
+	return strings.Join(ids, ","), append(waiters, others...)
 }
